@@ -56,7 +56,7 @@ def gen_l1_inputs(run, pkgs, n_malformed):
     rng = run.rng
     docs, hdocs, tags, kvs = [], [], [], []
     for pkg in pkgs:
-        for st in pkg["structs"] + (pkg["qpkg"]["structs"] if pkg["qpkg"] else []):
+        for st in pkg["structs"] + [x for q in rg.helpers(pkg) for x in q["structs"]]:
             for f in st["fields"]:
                 t = []
                 if f["json"]:
@@ -245,7 +245,12 @@ def gen_packages(run):
     n = 150 if run.thorough() else 18
     pkgs = []
     for i in range(n):
-        # the first five packages start their interfaces with one method per verb, so that every run covers all verbs
+        if i == 2:
+            # the combinations a random draw may miss (same-named structs of three packages, getter-backed fields of
+            # qualified structs on GET/DELETE, by value and by pointer)
+            pkgs.append(rg.gen_coverage_pkg(rng, "p%03d" % i))
+            continue
+        # the first packages start their interfaces with one method per verb, so that every run covers all verbs
         verbs = rg.VERBS if i < 2 else None
         pkgs.append(rg.gen_iface_pkg(rng, "p%03d" % i, n_ifaces=rng.randint(1, 3),
                                      methods_per_iface=(5, 5) if verbs else (1, 4), verbs=verbs,
@@ -330,8 +335,8 @@ def read_asts(run, restast, mod, pkgs):
     args = []
     for p in pkgs:
         a = str(mod / p["name"])
-        if p.get("qpkg"):
-            a += ",%s=%s" % (p["qpkg"]["name"], mod / p["qpkg"]["name"])
+        for q in rg.helpers(p):
+            a += ",%s=%s" % (q["name"], mod / q["name"])
         args.append(a)
     rc, out, err = lib.sh([str(restast)] + args, timeout=300)
     res = [json.loads(l) for l in out.splitlines() if l.strip()]
